@@ -19,6 +19,7 @@ import (
 
 	"github.com/a-h/templ/lsp/jsonrpc2"
 	"github.com/a-h/templ/zzverif/kernel"
+	"github.com/a-h/templ/zzverif/shim/simhook"
 	"github.com/a-h/templ/zzverif/shim/simsync"
 )
 
@@ -583,6 +584,18 @@ func subC(rc *kernel.RunCtx, k *kernel.Kernel) {
 		}
 	})
 	defer simsync.SetAfterUnlock(nil)
+	// a goroutine that has just closed a channel (AsyncHandler opening the gate of the next
+	// handler, a conn announcing it is done) is held there: the goroutine it woke runs alone
+	// until it blocks, then the scheduler decides when this one continues
+	nclose := 0
+	simhook.SetYield(func(site string) {
+		if !k.Quiescing.Load() {
+			return
+		}
+		nclose++
+		k.Park(fmt.Sprintf("after-close#%d", nclose), "yield", site, nil)
+	})
+	defer simhook.SetYield(nil)
 
 	ncallers := t.Range(1, rc.Param("max_callers", 5), "ncallers")
 	nnotifiers := t.Range(0, 2, "nnotifiers")
